@@ -563,7 +563,7 @@ fn main() {
     }
 
     // 3. random rounds: random width, size, configuration; rate judged when n >= 1000
-    let rounds = ctx.scale(5, 2_000, 100_000);
+    let rounds = ctx.scale(5, 8_000, 100_000);
     for _ in 0..rounds {
         let v = r.random_range(0..VARIANTS.len());
         let var = &VARIANTS[v];
